@@ -196,6 +196,7 @@ def run(ctx: Ctx) -> None:
             n_methods += 1
             n_flags += lint(ctx, cmd, sc)
             one_send(ctx, m, cmd)
+            no_rebinding(ctx, m)
     ctx.count("C15.methods", n_methods, 19, "command methods")
     ctx.count("C15.flags", n_flags, 42, "presence flags in the command requests")
 
@@ -221,6 +222,14 @@ def one_send(ctx: Ctx, fn: Func, cmd: Cmd) -> None:
     facts = disjunctive(g, frozenset(), step)
     counts = {max([int(x[1:]) for x in s if x.startswith("c")] or [0]) for s in facts.get(g.exit, frozenset())}
     ctx.ob("C15.R7", fn, f"{cmd.msg} sent exactly once on every normal path", counts == {1}, f"possible send counts {sorted(counts)}")
+
+
+def no_rebinding(ctx: Ctx, fn: Func) -> None:
+    """The arguments are what the caller supplied: a command method never rebinds one of its parameters (a value
+    normalised on the way - stripped, stringified, defaulted - is no longer 'exactly the supplied argument')."""
+    params = set(fn.param_names()) - {"self"}
+    reb = sorted({n.id for n in own_nodes(fn.node) if isinstance(n, ast.Name) and isinstance(n.ctx, (ast.Store, ast.Del)) and n.id in params})
+    ctx.ob("C15.R2", fn, "no argument is rebound before it is written to the request", not reb, f"parameters reassigned in the method: {reb} - the guard `p is not None` then tests the rewritten value (e.g. '' turned into None and dropped)")
 
 
 def lint(ctx: Ctx, cmd: Cmd, sc: Schema) -> int:
